@@ -330,9 +330,13 @@ pub fn make_string(vm: &mut Vm) -> Result<VCell, Error> {
         _ => pop_char(vm)?,
     };
     let size = pop_usize(vm)?;
-    Ok(VCell::string(
-        std::iter::repeat_n(c, size).collect::<String>(),
-    ))
+    // the size is the program's: a string nobody can allocate is an error, not a panic
+    let err = || InvalidSyntax(format!("make-string: cannot allocate {} characters", size));
+    let mut s = String::new();
+    let bytes = size.checked_mul(c.len_utf8()).ok_or_else(err)?;
+    s.try_reserve_exact(bytes).map_err(|_| err())?;
+    s.extend(std::iter::repeat_n(c, size));
+    Ok(VCell::string(s))
 }
 
 pub fn string(vm: &mut Vm) -> Result<VCell, Error> {
